@@ -52,9 +52,7 @@ def run(ctx, report):
                 continue
             adm = [(0, guards.INF)]
             for d, cond, allowed, alll in an.constraints_at(bb):
-                if len(allowed) != 1:
-                    continue
-                r = guards.edge_set(cond, list(allowed)[0], const_int)
+                r = guards.constraint_set(cond, allowed, const_int, strip)
                 if r is None:
                     continue
                 q, s = r
@@ -92,8 +90,24 @@ def run(ctx, report):
         ("<node_id::NodeId as std::convert::From<Enr<T>>>::from", "From<Enr>", lambda e: P.match(e, P.call(name="node_id", args=[P.param(1)])) is not None),
         ("<node_id::NodeId as std::convert::From<&Enr<T>>>::from", "From<&Enr>", lambda e: P.match(e, P.call(name="node_id", args=[P.param(1)])) is not None),
     ]
+    def find_ident(path, nm):
+        f0 = facts.fn(path)
+        if f0 is not None:
+            return f0
+        # the same impl under another spelling of the array type (e.g. a named length constant)
+        for x in facts.fns:
+            if not (x.impl_self and x.impl_self.get("adt") == "node_id::NodeId" and x.impl_trait):
+                continue
+            t = x.impl_trait
+            arr = any(i.get("k") == "array" and i.get("n") == 32 for i in x.inputs) or any(i.get("k") == "ref" and i.get("of", {}).get("k") == "array" and i["of"].get("n") == 32 for i in x.inputs)
+            if nm == "From<[u8;32]>" and x.name == "from" and t.startswith("std::convert::From<[u8;"):
+                return x
+            if nm == "PartialEq<[u8;32]>" and x.name == "eq" and t.startswith("std::cmp::PartialEq<[u8;"):
+                return x
+        return None
+
     for path, nm, pred in specs:
-        f = facts.fn(path)
+        f = find_ident(path, nm)
         if f is None:
             report.violate("IDENT", nm, "anchor %s not found" % path, config=cfg)
             continue
@@ -134,75 +148,140 @@ def run(ctx, report):
     # ------------------------------------------------------------ serde
     if "serde" not in facts.features:
         return
-    f = facts.fn("node_id::serde_hex_prfx::serialize")
-    if f is None:
-        report.violate("JSON", "serialize", "anchor serde_hex_prfx::serialize not found", config=cfg)
-    else:
-        report.analysed_fns.add(f.path)
-        an, rets = one_ret(ctx, f)
-        ok = False
-        why = "unrecognised shape"
-        if len(rets) == 1:
-            es = strip(rets[0][2])
-            if es.k == "call" and es.a[0].name == "serialize_str" and len(es.a[1]) == 2 and strip(es.a[1][0]).k == "param":
-                pieces = fmtstr.pieces_of_string(es.a[1][1])
-                ok = pieces is not None and len(pieces) == 2 and pieces[0] == ("lit", b"0x") and pieces[1][0] == "arg" and pieces[1][1] == "display" and not pieces[1][4] and \
-                    P.match(pieces[1][2], P.call(name="encode", fn="hex::encode", args=[P.param(1)])) is not None
-                why = describe(pieces)
-            else:
-                why = short(es, 160)
-        report.check("JSON", "serialize", ok, "the JSON form is the string \"0x\" + hex::encode(raw)", "serialize: " + why, fn=f.path, sp=f.span, config=cfg)
-    f = facts.fn("node_id::serde_hex_prfx::deserialize")
-    if f is None:
-        report.violate("JSON", "deserialize", "anchor serde_hex_prfx::deserialize not found", config=cfg)
-    else:
-        report.analysed_fns.add(f.path)
-        an, rets = one_ret(ctx, f)
-        good = 0
-        bad = []
-        for bb, idx, e, node in rets:
-            es = strip(e)
-            if es.k == "call" and es.a[0].name == "from_residual":
-                continue
-            cur = es
-            if cur.k == "call" and cur.a[0].name in ("map_err", "map") and cur.a[1]:
-                cur = strip(cur.a[1][0])
-            if cur.k == "call" and cur.a[0].name == "from_hex" and (cur.a[0].trait or "").endswith("FromHex") and cur.a[1]:
-                src = strip(cur.a[1][0])
-                # unwrap_or(strip_prefix(S, "0x"), S)  |  S
-                S = None
-                if src.k == "call" and src.a[0].name == "unwrap_or" and len(src.a[1]) == 2:
-                    sp = strip(src.a[1][0])
-                    if sp.k == "call" and sp.a[0].name == "strip_prefix" and len(sp.a[1]) == 2 and strip(sp.a[1][1]).k == "const" and strip(sp.a[1][1]).a[0] == b"0x":
-                        if repr(strip(sp.a[1][0])) == repr(strip(src.a[1][1])):
-                            S = strip(sp.a[1][0])
-                if S is not None and any(c.k == "call" and c.a[0].name == "deserialize" for c in S.walk()) and not any(c.k == "call" and c.a[0].name in ("trim", "to_lowercase", "to_uppercase", "replace", "trim_start_matches") for c in S.walk()):
-                    good += 1
-                else:
-                    bad.append("hex source is %s" % short(src, 200))
-            else:
-                bad.append(short(e, 160))
-        report.check("JSON", "deserialize", good >= 1 and not bad, "deserialisation = from_hex(string minus at most one \"0x\" prefix), string otherwise unchanged",
-                     "deserialize: %s" % ("; ".join(bad) or "from_hex not reached"), fn=f.path, sp=f.span, config=cfg)
-    # the derived impls route the raw field through that module, for [u8;32]
-    for nm, target in (("serialize", "node_id::serde_hex_prfx::serialize"), ("deserialize", "node_id::serde_hex_prfx::deserialize")):
+    serde_rules(ctx, report)
+
+
+def serde_rules(ctx, report):
+    """NodeId's derived Serialize/Deserialize route the raw [u8;32] through a
+    `with =` module: analyse that module's functions (or, when they were
+    inlined because they are not anchors, the derived impl itself)."""
+    from rules.typestate import trace_local
+    cfg = ctx.config
+    facts = ctx.facts
+    RAW = P.field(P.param(1), "raw")
+    for nm in ("serialize", "deserialize"):
         fs = [x for x in facts.fns if x.name == nm and x.impl_self and x.impl_self.get("adt") == "node_id::NodeId" and "_serde::" in (x.impl_trait or "")]
         if not fs:
             report.violate("JSON", "derive/" + nm, "derived %s for NodeId not found" % nm, config=cfg)
-        for x in fs:
-            report.analysed_fns.add(x.path)
-            an, rets = one_ret(ctx, x)
-            ok = False
-            for bb, idx, e, node in rets:
-                for c in e.walk():
-                    if c.k == "call" and c.a[0].target() == target:
-                        t32 = any(t["s"] == "[u8; 32]" for t in c.a[0].targs)
-                        if nm == "serialize":
-                            ok = t32 and P.match(c.a[1][0], RAW) is not None
-                        else:
-                            ok = t32
-            report.check("JSON", "derive/" + nm, ok, "NodeId's serde %s goes through the 0x-hex module on the raw [u8;32]" % nm,
-                         "NodeId's derived %s does not use serde_hex_prfx on the raw field" % nm, fn=x.path, sp=x.span, config=cfg)
+            continue
+        x = fs[0]
+        report.analysed_fns.add(x.path)
+        an = ctx.an(x)
+        rets = ret_exprs(an)
+        # does the derived impl delegate to a module function that still exists as its own body?
+        target = None
+        for bb, idx, e, node in rets:
+            for c in e.walk():
+                if c.k == "call" and c.a[0].local and c.a[0].name == nm and not c.a[0].trait and facts.fn(c.a[0].target()) is not None:
+                    target = c
+        if target is not None:
+            g = facts.fn(target.a[0].target())
+            report.analysed_fns.add(g.path)
+            t32 = any(t["s"].startswith("[u8; ") for t in target.a[0].targs)
+            if nm == "serialize":
+                routed = t32 and P.match(target.a[1][0], RAW) is not None
+            else:
+                routed = t32
+            report.check("JSON", "derive/" + nm, routed, "NodeId's serde %s goes through the 0x-hex module on the raw [u8;32]" % nm,
+                         "NodeId's derived %s does not hand the raw field to the hex module" % nm, fn=x.path, sp=x.span, config=cfg)
+            body_fn, data_pat, ser_param = g, P.param(1), 2
+        else:
+            report.ob("JSON", "derive/" + nm, True, "NodeId's serde %s (hex module inlined)" % nm, cfg, x.span)
+            body_fn, data_pat, ser_param = x, RAW, 2
+        ban = ctx.an(body_fn)
+        if nm == "serialize":
+            ok, why = serialize_shape(ctx, body_fn, ban, data_pat, ser_param)
+            report.check("JSON", "serialize", ok, "the JSON form is the string \"0x\" + hex::encode(raw)", "serialize: " + why, fn=body_fn.path, sp=body_fn.span, config=cfg)
+        else:
+            ok, why = deserialize_shape(ctx, body_fn, ban)
+            report.check("JSON", "deserialize", ok, "deserialisation = from_hex(string minus at most one \"0x\" prefix), string otherwise unchanged", "deserialize: " + why, fn=body_fn.path, sp=body_fn.span, config=cfg)
+
+
+def serialize_shape(ctx, f, an, data_pat, ser_param):
+    from rules.typestate import trace_local
+    rets = ret_exprs(an)
+    if len(rets) != 1:
+        return False, "%d return paths" % len(rets)
+    bb, idx, e, node = rets[0]
+    es = strip(e)
+    if not (es.k == "call" and es.a[0].name == "serialize_str" and len(es.a[1]) == 2 and strip(es.a[1][0]).k == "param"):
+        return False, short(es, 160)
+    pieces = fmtstr.pieces_of_string(es.a[1][1])
+    if pieces is None:
+        # a String assembled with push_str
+        for b, t in f.calls():
+            if b.idx == es.site and t.callee and t.callee.name == "serialize_str":
+                tgt = an.operand_target(t.args[1])
+                if tgt is not None and tgt[2] is False:
+                    import shapes
+                    pieces = fmtstr.pieces_of_string_buffer(an, shapes.root_local(an, tgt[0]))
+    HEXD = P.call(name="encode", fn="hex::encode", args=[data_pat])
+    ok = pieces is not None and len(pieces) == 2 and pieces[0] == ("lit", b"0x") and pieces[1][0] == "arg" and pieces[1][1] == "display" and not pieces[1][4] and P.match(pieces[1][2], HEXD) is not None
+    return ok, describe(pieces)
+
+
+def success_sources(e, depth=0):
+    """terminal expressions a Result-valued return can take its Ok from"""
+    e = strip(e)
+    if depth > 12:
+        yield e
+        return
+    if e.k == "phi":
+        for a in e.a[0]:
+            yield from success_sources(a, depth + 1)
+    elif e.k == "mutated":
+        yield from success_sources(e.a[0], depth + 1)
+    elif e.k == "call" and e.a[0].name in ("map", "map_err") and e.a[1] and e.a[0].fn.startswith("std::result::Result"):
+        yield from success_sources(e.a[1][0], depth + 1)
+    elif e.k == "call" and e.a[0].name == "from_residual":
+        return
+    elif e.k == "agg" and e.a[0].endswith("Result::Err"):
+        return
+    elif e.k == "agg" and e.a[0].endswith("Result::Ok"):
+        p = ok_payload(e.a[1]["0"])
+        yield from success_sources(p if p is not None else e.a[1]["0"], depth + 1)
+    else:
+        yield e
+
+
+def deserialize_shape(ctx, f, an):
+    good = 0
+    bad = []
+    for bb, idx, e, node in ret_exprs(an):
+        for cur in success_sources(e):
+            if cur.k == "call" and cur.a[0].name == "from_hex" and (cur.a[0].trait or "").endswith("FromHex") and cur.a[1]:
+                if hex_source_ok(cur.a[1][0]):
+                    good += 1
+                else:
+                    bad.append("hex source is %s" % short(cur.a[1][0], 200))
+            else:
+                bad.append(short(cur, 160))
+    return good >= 1 and not bad, "; ".join(bad) or "from_hex not reached"
+
+
+def hex_source_ok(src):
+    """S, or S minus at most one leading "0x" (strip_prefix), S = the deserialised string"""
+    src = strip(src)
+    S = None
+    if src.k == "call" and src.a[0].name == "unwrap_or" and len(src.a[1]) == 2:
+        sp = strip(src.a[1][0])
+        if sp.k == "call" and sp.a[0].name == "strip_prefix" and len(sp.a[1]) == 2 and strip(sp.a[1][1]).k == "const" and strip(sp.a[1][1]).a[0] == b"0x":
+            if repr(strip(sp.a[1][0])) == repr(strip(src.a[1][1])):
+                S = strip(sp.a[1][0])
+    elif src.k == "phi":
+        # match raw.strip_prefix("0x") { Some(x) => x, None => &raw }
+        alts = [strip(a) for a in src.a[0]]
+        plain = [a for a in alts if ok_payload(a) is None]
+        stripped = [a for a in alts if ok_payload(a) is not None]
+        if len(plain) == 1 and len(stripped) == 1:
+            sp = strip(ok_payload(stripped[0]))
+            if sp.k == "call" and sp.a[0].name == "strip_prefix" and len(sp.a[1]) == 2 and strip(sp.a[1][1]).k == "const" and strip(sp.a[1][1]).a[0] == b"0x":
+                if repr(strip(sp.a[1][0])) == repr(plain[0]):
+                    S = plain[0]
+    if S is None:
+        return False
+    banned = ("trim", "to_lowercase", "to_uppercase", "replace", "trim_start_matches", "trim_matches", "trim_end_matches", "to_ascii_lowercase", "split_at")
+    return any(c.k == "call" and (c.a[0].name or "").startswith("deserialize") for c in S.walk()) and not any(c.k == "call" and c.a[0].name in banned for c in S.walk())
 
 
 def describe(pieces):
